@@ -35,6 +35,20 @@ CHECKS = {
              "generated within capacity 28",
         technique="Lean 4 proof over an executable model + op-sequence differential correspondence under sanitizers",
         design="§5 C14"),
+    "C18": dict(
+        text="Lean 4 theorem by induction over every history of lock / try-lock-and-wait / unlock (handle or range) / adjust operations, any "
+             "threads, any ranges (zero-length, adjacent, nested, saturating at the top of the 64-bit space): the index stays sorted by the "
+             "set order, hence held ranges are pairwise disjoint; handles are unique; every parked waiter waits on an element that is still "
+             "held, and an unlock wakes all waiters of what it erases; a reported conflict is a real overlap; the scan used for lower_bound "
+             "is justified by a partition lemma. The model is tied to the code by op-sequence programs (generated against the model, run on "
+             "the real RangeLock with photon threads that really park) compared line by line incl. who is woken and the whole index; an "
+             "independent disjointness/wake-up oracle on the implementation output supplies failing inputs",
+        note="trusted: Lean kernel + 3 standard axioms; single vCPU in the harness (every RangeLock operation runs under its spinlock, so "
+             "a call is one atomic step; the atomic release-and-wait of the condition variable is property C03); ranges are denoted with the "
+             "implementation's saturating end in the theorem (known finding F11: byte 2^64-1); two empty ranges at the same point are not "
+             "generated (their std::set order is a libstdc++ artefact); known finding F12 (empty held range delays a covering request)",
+        technique="Lean 4 inductive invariant over operation histories + op-sequence differential correspondence with real parked threads",
+        design="§5 C18"),
     "C20": dict(
         text="Lean 4 theorems for every path string and base: whatever PathCat forwards is base++path and its component walk never "
              "goes above the base (no escape); every path whose prefixes all stay inside and that fits the buffer is forwarded (legal "
